@@ -34,6 +34,7 @@ FUNCTIONS = ['MultiVector.__getitem__/__setitem__/itermv/shape', 'reflected oper
 ASSUMPTIONS = ['array entries are reals held in object ndarrays / lists of object arrays', 'native numpy dtypes: concrete sampling only (plumbing)']
 BOUNDS = {'quick': 'algebras R2, R1,1, 2D-PGA, R3; trailing shapes (3,), (2,3); 9 index forms; all 9 infix operators x both sides x {number, list, tuple, callable, nested}',
           'thorough': 'more operators/patterns per shape, 3DPGA'}
+BOUNDS['quick'] += '; operands with different numbers of trailing axes ((n,2) against (2,), n = number of blades and n+1)'
 OUTSIDE = ['element-wise arithmetic of native-dtype numpy arrays (numpy C code, trusted)', 'shapes beyond 2 trailing axes']
 LABEL_MOVEMENT = True
 RULE = ('cases are enumerated/seeded deterministically; a case is non-trivial when it moved at least one symbolic label through the real code '
@@ -74,6 +75,19 @@ def cases(tier, seed):
                 out.append(dict(kind='setitem-permuted', cfg=cfg, ka=list(rng.choice([p for p in P if len(p) >= 2])), shape=list(shape), container=container,
                                 idx=rng.choice([i for i in INDEXES if _index_ok(i, shape)])))
                 out.append(dict(kind='itermv', cfg=cfg, ka=list(rng.choice(P)), shape=list(shape), container=container))
+        # operands whose coefficient arrays have DIFFERENT numbers of trailing axes (broadcast per coefficient, never across
+        # the blade axis): same and different key patterns, the leading extra axis as long as the number of blades or not
+        for container in ('ndarray', 'list'):
+            for op in ('add', 'sub', 'gp', 'op', 'ip', 'sw'):
+                for same in (True, False):
+                    if op in ('add', 'sub') and not same:
+                        # a blade only one operand stores keeps that operand's shape: the result is then not uniformly
+                        # indexable, and the property (one trailing shape) does not say it should be
+                        continue
+                    ka = list(rng.choice(P))
+                    kb = ka if same else list(rng.choice(P))
+                    for lead in (len(ka), len(ka) + 1):
+                        out.append(dict(kind='array-broadcast', cfg=cfg, op=op, ka=ka, kb=kb, lead=lead, container=container))
         for sym_op in INFIX:
             for side in ('left', 'right'):
                 for what in ('number', 'list', 'tuple', 'callable', 'nested-callable', 'list-of-callables', 'callable-returning-list', 'callable-returning-tuple'):
@@ -181,6 +195,26 @@ def run_case(desc, V):
             else:
                 Ri = ops.call_unary(op, Xi, 'method')
             claims += _cmp_mv(f'{op}[{istr}]', R[idx], Ri, fkey=f'{kind}|{op}|index')
+        return claims
+    if kind == 'array-broadcast':
+        op, lead = desc['op'], desc['lead']
+        X = _amv(alg, V, 'X', desc['ka'], (lead, 2), desc['container'])
+        Y = _amv(alg, V, 'Y', desc['kb'], (2,), desc['container'])
+        for tag, l, r in (('X.Y', X, Y), ('Y.X', Y, X)):
+            fkey = f'array-broadcast|{op}'
+            try:
+                R = ops.call_binary(op, l, r, 'method')
+            except Exception as e:  # noqa
+                claims.append(Fail(f'{tag}:raises', f'{op} of coefficient arrays with trailing shapes {(lead, 2)} and (2,) raised {type(e).__name__}: {e}', fkey=fkey + '|raises'))
+                continue
+            for m in range(lead):
+                Rm = ops.call_binary(op, X[m], Y, 'method') if l is X else ops.call_binary(op, Y, X[m], 'method')
+                try:
+                    got = R[m]
+                except (TypeError, IndexError) as e:
+                    claims.append(Fail(f'{tag}:result-not-indexable', f'{op}: result[{m}] raises {type(e).__name__}: {e}', fkey=fkey + '|result-not-indexable'))
+                    break
+                claims += _cmp_mv(f'{tag}[{m}]', got, Rm, fkey=fkey)
         return claims
     if kind == 'setitem':
         shape = tuple(desc['shape'])
